@@ -70,6 +70,20 @@ def workload(case):
                     wtimes[first['params'][0]] = loop.time()
             orig_write(data)
         ft.write = write
+        samples = []          # every response time the session records for its recalibration
+
+        class Rec(list):
+            def append(self, x):
+                samples.append(x)
+                list.append(self, x)
+
+            def extend(self, xs):
+                xs = list(xs)
+                samples.extend(xs)
+                list.extend(self, xs)
+        own_list = '_req_times' in vars(s)        # the response times of THIS session
+        if own_list:
+            s._req_times = Rec()
         conc = s._outgoing_concurrency
         orig_set = conc.set_target
 
@@ -119,6 +133,7 @@ def workload(case):
 
         written = {}
         backlog = [0]
+        snap_samples = []
 
         async def caller(i, spec):
             await asyncio.sleep(spec['start'])
@@ -160,6 +175,7 @@ def workload(case):
                 loop.call_later(case['lose_at'], ft.abort)
             horizon = case['horizon']
             done, pending = await asyncio.wait(tasks, timeout=horizon)
+            snap_samples[:] = list(samples)
             for t in pending:
                 t.cancel()
             mon.cancel()
@@ -170,7 +186,11 @@ def workload(case):
                 'violations': [h for h in hist if h[1] > h[2]][:3],
                 'lowered': lowered_violation(hist), 'backlog': backlog[0], 'recal': cfg['recal'],
                 'limits': sorted(limits_seen), 'wtimes': {str(k): v for k, v in wtimes.items()},
-                'timeout': cfg['timeout']}
+                'timeout': cfg['timeout'],
+                'samples': sorted(snap_samples),
+                'expected_samples': sorted(x for i, c in calls.items() if i in wtimes
+                                           for x in [(c['t1'] - wtimes[i]) / max(1, case['callers'][i]['batch'])] * max(1, case['callers'][i]['batch'])),
+                'npending': npending, 'own_list': own_list}
     finally:
         session.time = saved_time
         sessions.close_loop(loop)
@@ -295,6 +315,16 @@ class C20(Prop):
                 clause = ('a lowered limit did not take effect as outstanding requests completed: '
                           f"{o['lowered']['in_flight']} in flight, limit lowered from {o['lowered']['from']}, "
                           f"{o['lowered']['completed_since']} completed since, largest limit since {o['lowered']['largest_limit_since']}")
+            elif not o['own_list']:
+                clause = ('the session keeps no response-time list of its own (the samples of all sessions of the process end up '
+                          'in one list, so a session is recalibrated from other sessions\' response times)')
+            elif case.get('lose_at') is None and not o['pending'] and (
+                    len(o['samples']) != len(o['expected_samples'])
+                    or any(abs(a - b) > 1e-6 for a, b in zip(o['samples'], o['expected_samples']))):
+                bad = next(((a, b) for a, b in zip(o['samples'], o['expected_samples']) if abs(a - b) > 1e-6), None)
+                clause = ('the response times fed to the recalibration are not the times between each request\'s own write and its '
+                          f"outcome: recorded {len(o['samples'])} samples, expected {len(o['expected_samples'])}"
+                          + (f', e.g. {bad[0]:.4f} s recorded where {bad[1]:.4f} s passed' if bad else ''))
             elif o['backlog'] >= o['recal'] + 5:
                 clause = (f"{o['backlog']} response times were waiting although the limit is re-estimated after every "
                           f"{o['recal']} of them")
